@@ -35,7 +35,12 @@ def main():
     if "--checks" in sys.argv:
         checks = sys.argv[sys.argv.index("--checks") + 1].split(",")
     src = f"/tmp/mut-{pid}/out"
-    dst = f"{OUT}/seeded/{pid}-{n}"
+    if "--src" in sys.argv:
+        src = sys.argv[sys.argv.index("--src") + 1]
+    asn = n
+    if "--as" in sys.argv:  # number under which the change is kept (seeded/<id>-<as>)
+        asn = sys.argv[sys.argv.index("--as") + 1]
+    dst = f"{OUT}/seeded/{pid}-{asn}"
     os.makedirs(dst, exist_ok=True)
     demo = None
     if os.path.exists(f"{src}/patch{n}.diff"):
@@ -49,10 +54,10 @@ def main():
     else:
         # re-run of a seeded change already kept under seeded/<id>-<n>/ (the author's scratch tree is gone)
         src = dst
-        for cand in (f"demo{n}_test.go",):
-            if os.path.exists(f"{dst}/{cand}"):
+        for cand in sorted(os.listdir(dst)):
+            if cand.startswith("demo") and cand.endswith("_test.go"):
                 demo = cand
-    meta = {"property": pid, "n": int(n), "patch": "patch.diff", "demo": demo, "ran": []}
+    meta = {"property": pid, "n": int(asn), "patch": "patch.diff", "demo": demo, "ran": []}
 
     wt = "/tmp/seedtest-wt-" + os.path.basename(V)
     sh(f"git -C {REPO} worktree remove --force {wt}")
